@@ -37,6 +37,7 @@ def canon(o):
 
 
 def one_case(res, rng, case, seed):
+    common.use_repo()
     import livedomain as ld
     from flumine.order.order import OrderStatus
     w = ld.LiveWorld(rng, async_orders=rng.random() < 0.2)
@@ -238,12 +239,33 @@ def make_oracle(sc):
     return Oracle(sc)
 
 
+def directed():
+    """an UPDATE (and a REPLACE) package of two orders whose first order is fully matched while the request waits out its
+    latency: every report must still reach the order it belongs to, and the second order must come back to rest"""
+    import directed as d
+    T0 = d.T0
+    out = []
+    for kind in ("update", "replace"):
+        req = (lambda t: ["update", t, "PERSIST", False]) if kind == "update" else (lambda t: ["replace", t, 3.5, None, False])
+        ups = [
+            d.update(T0, d.two(), acts={"0": [d.create(0, 0, 1, "BACK", 3.0, 4.0), ["place", "t0", None, False],
+                                               d.create(1, 1, 1, "BACK", 3.0, 50.0), ["place", "t1", None, False]]}),
+            d.update(T0 + 200, d.two()),
+            d.update(T0 + 300, d.two(), acts={"0": [["bbegin", 0], req("t0"), req("t1"), ["bend"]]}),
+            d.update(T0 + 400, d.two(trd=[(3.0, 40.0)])),
+            d.update(T0 + 700, d.two(trd=[(3.0, 40.0)])),
+            d.update(T0 + 1700, d.two(trd=[(3.0, 40.0)])),
+        ]
+        out.append(d.scenario([d.market(101, ups)]))
+    return out
+
+
 def run(res, tier, seed, model_ok, search):
     res.rule = ("live: packages of 1..3 orders of every kind through the real BetfairExecution handlers with random SUCCESS / FAILURE (five error "
                 "codes) / TIMEOUT reports, dropped and partial cancel reports, API errors on attempts 1..4, orders completed through the order "
                 "stream between request and response; simulated: whole runs with failing responses. non-trivial = a handler ran; distinct = case")
     run_live(res, tier, seed, model_ok, search)
-    simcheck.run(res, "C12", tier, seed, model_ok, search, n_quick=200, n_thorough=6000)
+    simcheck.run(res, "C12", tier, seed, model_ok, search, n_quick=200, n_thorough=6000, directed=directed())
 
 
 def replay(payload):
